@@ -67,13 +67,13 @@ pub proof fn lemma_xor1(id: usize, n: usize)
 pub proof fn lemma_pairs(m: ReManager, j: int)
     requires mgr_wf(m), 0 <= j, 2 * j + 1 < m.store.terms@.len(),
     ensures pair_ok(m.store.terms@, j),
-        forall|w: Seq<u32>| #[trigger] lang(*m.store.terms@[2 * j], w) == (word_ok(w) && !lang(*m.store.terms@[2 * j + 1], w)),
+        forall|w: Seq<u32>| #[trigger] lang_k(m.store.terms@[2 * j].expr, w) == (word_ok(w) && !lang_k(m.store.terms@[2 * j + 1].expr, w)),
 {
     let t = m.store.terms@;
     assert(pair_ok(t, j));
-    assert forall|w: Seq<u32>| #[trigger] lang(*t[2 * j], w) == (word_ok(w) && !lang(*t[2 * j + 1], w)) by {
-        assert(lang(*t[2 * j + 1], w) == (word_ok(w) && !lang(*t[2 * j], w)));
-        if lang(*t[2 * j], w) { lemma_lang_word_ok(t[2 * j].expr, w); }
+    assert forall|w: Seq<u32>| #[trigger] lang_k(t[2 * j].expr, w) == (word_ok(w) && !lang_k(t[2 * j + 1].expr, w)) by {
+        assert(lang_k(t[2 * j + 1].expr, w) == (word_ok(w) && !lang_k(t[2 * j].expr, w)));
+        if lang_k(t[2 * j].expr, w) { lemma_lang_word_ok(t[2 * j].expr, w); }
     }
 }
 
@@ -82,14 +82,14 @@ pub proof fn lemma_pair_from_complement(t: Seq<RegLan>, j: int)
     requires 0 <= j, 2 * j + 1 < t.len(), t[2 * j + 1].expr == BaseRegLan::Complement(t[2 * j]),
     ensures pair_ok(t, j),
 {
-    assert forall|w: Seq<u32>| #[trigger] lang(*t[2 * j + 1], w) == (word_ok(w) && !lang(*t[2 * j], w)) by {
+    assert forall|w: Seq<u32>| #[trigger] lang_k(t[2 * j + 1].expr, w) == (word_ok(w) && !lang_k(t[2 * j].expr, w)) by {
         lemma_complement_lang(t[2 * j], w);
     }
 }
 
 pub proof fn lemma_pair_at(t: Seq<RegLan>, j: int, w: Seq<u32>)
     requires pair_ok(t, j),
-    ensures lang(*t[2 * j + 1], w) == (word_ok(w) && !lang(*t[2 * j], w)),
+    ensures lang_k(t[2 * j + 1].expr, w) == (word_ok(w) && !lang_k(t[2 * j].expr, w)),
 {
 }
 
@@ -99,3 +99,33 @@ pub proof fn lemma_pair_at(t: Seq<RegLan>, j: int, w: Seq<u32>)
 pub proof fn axiom_term_count_bounded(t: Seq<RegLan>)
     ensures t.len() < usize::MAX - 2,
 { }
+
+pub proof fn lemma_owned_extends(m2: ReManager, m1: ReManager, e: RegLan)
+    requires mgr_extends(m2, m1), owned(m1, e),
+    ensures owned(m2, e),
+{
+    assert(m2.store.terms@[e.id as int] == m1.store.terms@[e.id as int]);
+}
+
+pub proof fn lemma_extends_trans(m3: ReManager, m2: ReManager, m1: ReManager)
+    requires mgr_extends(m3, m2), mgr_extends(m2, m1),
+    ensures mgr_extends(m3, m1),
+{
+    assert forall|i: int| 0 <= i < m1.store.terms@.len() implies #[trigger] m3.store.terms@[i] == m1.store.terms@[i] by {
+        assert(m2.store.terms@[i] == m1.store.terms@[i]);
+    }
+}
+
+pub proof fn lemma_owned_facts(m: ReManager, e: RegLan)
+    requires mgr_wf(m), owned(m, e),
+    ensures re_ok(*e), kids_owned(m.store.terms@, e.expr), kids_ok(e.expr),
+{
+    let t = m.store.terms@;
+    assert(kids_owned(t, (#[trigger] t[e.id as int]).expr) && re_ok(*t[e.id as int]));
+}
+
+pub proof fn lemma_same_id(m: ReManager, a: RegLan, b: RegLan)
+    requires owned(m, a), owned(m, b), a.id == b.id,
+    ensures *a == *b,
+{
+}
